@@ -534,6 +534,16 @@ def run(ctx):
         raise SystemExit(2)
     proofs_ok, info = ctx.check_proofs(make_targets=["Codec/Proofs.vo", "Codec/Isolation.vo", "Properties/C12.vo"],
                                        gate_paths=["Codec", "Common", "Properties/C12"])
+    # Codec/Isolation.v imports the data builder's model (coq/Data): when that group's files are being rebuilt
+    # concurrently, a .vo can change between `make` and the fresh compile of the property file. That is a build
+    # race, not a proof failure: rebuild and re-check (at most twice).
+    for _ in range(2):
+        err = (info.get("error") or "") + (info.get("make_error") or "")
+        if proofs_ok or "inconsistent assumptions" not in err:
+            break
+        ctx.notes.append("rebuilt after a concurrent rebuild of an imported library: " + err.strip()[-160:])
+        proofs_ok, info = ctx.check_proofs(make_targets=["Codec/Proofs.vo", "Codec/Isolation.vo", "Properties/C12.vo"],
+                                           gate_paths=["Codec", "Common", "Properties/C12"])
     mok, mout, _ = vlib.model_build("Codec")
     if not mok:
         log("MODEL BUILD FAILED:\n" + mout[-3000:])
